@@ -38,6 +38,7 @@ IR_RUNS.update({
                          ("MC", "hier_edit", 10, 400), ("MC", "hier_walk", 16, 1500)]},
     "C07": {"quick": [("MC", "clone", 2), ("MC", "clone_edit", 0)],
             "thorough": [("MC", "clone", 5), ("MC", "clone", 10, 60), ("MC", "clone_edit", 1)]},
+    "C13": {"quick": [("MC", "query", 1)], "thorough": [("MC", "query", 30)]},
     "C08": {"quick": [("MC", "xf", 3), ("MC", "xf_port", 4), ("MC", "xf", 12, 40)],
             "thorough": [("MC", "xf", 5), ("MC", "xf_port", 11), ("MC", "xf", 14, 1500)]},
     "C09": {"quick": [("MC", "xf", 2), ("MC", "xf_port", 6), ("MC", "xf", 12, 30)],
@@ -46,6 +47,11 @@ IR_RUNS.update({
             "thorough": [("MC", "hier12", 5), ("MC", "hier12", 14, 1000)]},
 })
 IR_RULE = {
+    "C13": "on a fixed design with colliding names (case variants, prefixes, unnamed elements, a user key, identifiers) TLC "
+           "draws a seeded random subset of the query product (13 functions x root kinds x selection x recursive x key x 1-2 "
+           "patterns derived from the values present x is_case x is_re x filter); each is run together with the unfiltered "
+           "query, the reversed pattern order and the fast lookup deregistered; distinct_nontrivial counts distinct queries "
+           "that were accepted",
     "C07": "designs = reachable states of the build scope clone (three libraries with cross-library references, named and "
            "unnamed instances, top instance stand-alone); on each, clone() with EVERY element of every kind as the root "
            "(strict conformance to the TLA+ clone model including ids); scope clone_edit: a netlist and its clone side "
@@ -128,7 +134,25 @@ def _diff_fields(a, b):
     return sorted(k for k in set(a) | set(b) if a.get(k) != b.get(k))
 
 
+def _c13_detail(sig, rec):
+    c = rec["call"]
+    hier = c["fn"].startswith("h")
+    sig.update({"fn_family": "hier" if hier else "flat", "root_kind": c["root"][0],
+                "mode": ("re" if c["isRe"] else "glob") + ("" if c["isCase"] else "+nocase")})
+    S = lambda x: set(json.dumps(y) for y in x)  # noqa: E731
+    def eid(e):
+        return e[-1][1] if hier else e[1]
+    ret = S(rec.get("ret", []))
+    unf = S(e for e in rec.get("unf", []) if c["filt"] == "none" or eid(e) % 2 == 1)
+    sig["ret_vs_unfiltered"] = "all-of-unfiltered" if ret == unf else ("subset" if ret <= unf else "not-a-subset")
+    if len(rec.get("ret", [])) != len(ret):
+        sig["duplicates"] = True
+    return sig
+
+
 def _detail(sig, clause, rec, header):
+    if clause.startswith("C13") and rec.get("call", {}).get("op") == "q":
+        return _c13_detail(sig, rec)
     st = rec.get("state") if rec.get("state") else header.get("state")
     if clause in ("C10_LookupAgrees", "C07_SameAnswers") and st:
         sig["lookup_classes"] = _lookup_classes(st)
@@ -239,4 +263,4 @@ def ir_history(pid, tier, seed, replay=None, runs=None, strict=True):
 
 
 HANDLERS = {"C01": ir_history, "C02": ir_history, "C14": ir_history, "C10": ir_history, "C19": ir_history, "C11": ir_history,
-            "C12": ir_history, "C08": ir_history, "C09": ir_history, "C07": ir_history}
+            "C12": ir_history, "C08": ir_history, "C09": ir_history, "C07": ir_history, "C13": ir_history}
